@@ -3,7 +3,7 @@
 Round-trip and isometry monitors on the functions of ahrs.common.frames."""
 import numpy as np
 
-from .. import gens
+from .. import forms, gens
 from ..core import Case, call
 from ..oracles import as_real_array
 
@@ -136,6 +136,12 @@ def check_local(case, ctx):
         ctx.ok("NED -> ENU -> NED is the identity (vector)", np.array_equal(np.asarray(out.value[0], float), enu), route=r)
         ctx.ok("NED -> ENU -> NED is the identity (N rows)", np.array_equal(np.asarray(out.value[1], float), A), route=r)
         ctx.ok("NED -> ENU swaps north/east and negates down", np.array_equal(np.asarray(out.value[2], float), np.array([enu[1], enu[0], -enu[2]])), route=r)
+    vi, Ai = np.round(enu / np.abs(enu).max() * 40.0), np.round(A / np.abs(A).max() * 40.0)      # whole-number coordinates, also as int arrays / lists / tuples
+    if np.any(vi):
+        forms.invariant(ctx, r, lambda x: f.ned2enu(x), [vi])
+        forms.invariant(ctx, r, lambda x: f.enu2ned(x), [vi])
+        forms.invariant(ctx, r, lambda x: f.ned2enu(x), [Ai])
+        forms.invariant(ctx, r, lambda x: f.enu2ned(f.ned2enu(x)), [Ai])
     r = "llf<->ecef"
     out = call(lambda: (np.asarray(f.llf2ecef(la, lo), float), np.asarray(f.ecef2llf(la, lo), float)))
     if ctx.returned(out, route=r):
